@@ -1,9 +1,9 @@
 CONSTANTS
-  MaxNals = 3
-  MaxNalLen = 3
+  MaxNals = 2
+  MaxNalLen = 4
   HdrSyms = {"S", "H", "Z", "O"}
   BodySyms = {"Z", "O", "F"}
-  Sample = 20
+  Sample = 120
   Emit = TRUE
 INIT Init
 NEXT Next
